@@ -53,6 +53,9 @@ VALUES = {
     "nested": ("⟨⟨1⟩|⟨2|3⟩⟩", [[1], [2, 3]]),
     "lazy": ("3ɾ", [1, 2, 3]),
     "lazy_mapped": ("3ɾ›", [2, 3, 4]),
+    # lazy lists that have already been looked at through another reference (the register): one item is memoised, the rest is not
+    "lazy_peeked": ("3ɾ£¥h_¥", [1, 2, 3]),
+    "lazy_mapped_peeked": ("4ɾ›£¥1i_¥", [2, 3, 4, 5]),
     "string": ("`ab`", "ab"),
     # an infinite list (carries the `infinite` flag; copies made by : / D do not): judged on its first 64 items
     "primes": ("Þp", [2, 3, 5, 7, 11, 13, 17, 19, 23, 29, 31, 37, 41, 43, 47, 53, 59, 61, 67, 71, 73, 79, 83, 89, 97, 101, 103, 107, 109, 113,
